@@ -108,7 +108,7 @@ def plan(tier, seed):
     from vmon.gen import c12_gen as G
     q = tier == "quick"
     # cost per case on one core: rand ~0.07 s, exh ~0.4 s
-    shards = _split("rand", 1920 if q else 48000, 16 if q else 96)
+    shards = _split("rand", 1920 if q else 36000, 16 if q else 96)
     shards += _split("exh", G.exhaustive_count(EXH_N[tier], EXH_T[tier]), 8 if q else 32,
                      max_n=EXH_N[tier])
     return shards
